@@ -95,3 +95,6 @@ print("ok")
 # F13: a key that only a decorator produces: the consumer's shallow check depended on whether the decorator had already run
 h=H(); h.decorate(0,[],["V2"]); h.provide(0,["V2"],["V1"]); h.invoke(0,["V1"])
 emit("F13-decorated-unprovided-key","C16","C04.should-succeed",h,"Decorate(func() V2); Provide(func(V2) V1); Invoke(func(V1)) fails with a missing type unless some earlier Invoke happened to run the decorator: outcome depends on operation order")
+# F14: a decorator result tagged flatten is accepted; the [][]T it returns is then delivered to consumers of []T
+h=H(); h.provide(0,[],["V0@g1"]); h.decorate(0,[],["V1"],inv="decorate-flatten-group"); h.invoke(0,["V0@g1"])
+emit("F14-decorate-flatten-group","C14","C14.panic",h,"Decorate accepts a result field [][]T tagged group:\"g,flatten\"; the next Invoke consuming []T of that group panics (reflect.Set: value of type [][]T is not assignable to type []T)")
